@@ -339,7 +339,8 @@ func (m *model) judge(s *snap, r *Recovered) *verdict {
 		}
 	}
 	partial := map[int]*[2]int{} // in-flight write id -> [visible rows, invisible rows]
-	note := func(w *winfo, visible bool) {
+	invisibleVs := map[int][]int64{}
+	note := func(w *winfo, visible bool, vv int64) {
 		p := partial[w.ID]
 		if p == nil {
 			p = &[2]int{}
@@ -349,6 +350,7 @@ func (m *model) judge(s *snap, r *Recovered) *verdict {
 			p[0]++
 		} else {
 			p[1]++
+			invisibleVs[w.ID] = append(invisibleVs[w.ID], vv)
 		}
 	}
 	for sk, ws := range m.slots {
@@ -400,9 +402,9 @@ func (m *model) judge(s *snap, r *Recovered) *verdict {
 		// atomicity bookkeeping for in-flight requests (determinate only with a single in-flight writer of the slot)
 		for _, x := range inf {
 			if present && row[2] == x.V {
-				note(x.W, true)
+				note(x.W, true, x.V)
 			} else if len(inf) == 1 {
-				note(x.W, false)
+				note(x.W, false, x.V)
 			}
 		}
 	}
@@ -444,7 +446,7 @@ func (m *model) judge(s *snap, r *Recovered) *verdict {
 			fallthrough
 		case m.inflight(w, k):
 			if m.inflight(w, k) {
-				note(w, n > 0)
+				note(w, n > 0, vv)
 			}
 			if n > 1 {
 				asIs := s.Applied[vv] + min1(replayed[vv])
@@ -464,7 +466,35 @@ func (m *model) judge(s *snap, r *Recovered) *verdict {
 	}
 	for id, p := range partial {
 		if p[0] > 0 && p[1] > 0 {
-			v.add(&v.C02, "violation", "", fmt.Sprintf("%s: in-flight request %d applied partially: %d rows visible, %d not", where, id, p[0], p[1]))
+			// listed defect F-SPLIT: the background timer flush cut the request's commands into two logged
+			// transactions and the crash fell between their commits. Trigger computed from the recording (the
+			// request's payloads sit in >= 2 transactions) and from the crash state's WAL (no invisible row's
+			// transaction is intact there).
+			tgs := map[int64]bool{}
+			for _, vv := range effectivePayloads(m.rec.Writes[id].Step) {
+				if t, ok := m.rec.TGOf[vv]; ok {
+					tgs[t] = true
+				}
+			}
+			intact := map[int64]bool{}
+			for _, msgs := range s.walImages() {
+				for _, mm := range msgs {
+					if mm.Kind == "tg" && mm.Intact {
+						intact[mm.TGID] = true
+					}
+				}
+			}
+			split := len(tgs) >= 2
+			for _, vv := range invisibleVs[id] {
+				if t, ok := m.rec.TGOf[vv]; ok && intact[t] {
+					split = false
+				}
+			}
+			if split && m.rec.H.Mode == "background" {
+				v.add(&v.C02, "known", "F-SPLIT", fmt.Sprintf("%s: in-flight request %d applied partially (%d rows visible, %d not): its commands were logged as %d separate transactions and only the first was committed before the crash", where, id, p[0], p[1], len(tgs)))
+			} else {
+				v.add(&v.C02, "violation", "", fmt.Sprintf("%s: in-flight request %d applied partially: %d rows visible, %d not", where, id, p[0], p[1]))
+			}
 		}
 		v.cnt("inflight_requests_checked", 1)
 	}
